@@ -14,7 +14,7 @@ RULE = ('grid cells (size, max_body_size L, max_memfile_size B, framing, content
         'when there is no limit), L in {None,0,1,17,100,4096}, B in {1,16,100,4096}; each cell is one request through Ombott.__call__ whose handler '
         'reads the body the way the content kind asks. Non-trivial = the size is within one buffer of a limit or above it; distinct = distinct cell.')
 PYOPT = {'quick': 1, 'thorough': 1}     # one unit of every kind is also served by an interpreter started with -O (assert statements compiled out)
-REQUIRED = ['units_run_under_python_-O', 'raw_body_announced_as_multipart_but_refused_by_the_scanner', 'limits_given_to_ctor', 'limits_given_to_setup', 'limits_given_to_resetup', 'chunked_with_misleading_content_length', 'multipart_text_over_threshold_in_several_fields', 'rejected_413', 'accepted_within_limit', 'spooled_to_disk', 'kept_in_memory', 'consumption_checked', 'chunked_cells', 'cl_cells',
+REQUIRED = ['units_run_under_python_-O', 'multipart_followed_by_a_long_epilogue', 'multipart_text_outside_ascii', 'raw_body_announced_as_multipart_but_refused_by_the_scanner', 'limits_given_to_ctor', 'limits_given_to_setup', 'limits_given_to_resetup', 'chunked_with_misleading_content_length', 'multipart_text_over_threshold_in_several_fields', 'rejected_413', 'accepted_within_limit', 'spooled_to_disk', 'kept_in_memory', 'consumption_checked', 'chunked_cells', 'cl_cells',
             'urlencoded_refused_over_threshold', 'multipart_text_refused_over_threshold', 'multipart_file_over_threshold_delivered',
             'content_compared', 'exactly_at_limit_accepted', 'one_over_limit_rejected']
 EXHAUSTIVE = {'quick': False, 'thorough': False, 'quick_note': 'the grid units enumerate the grid without L=4096/B=4096 completely; random units add seeded off-grid cells', 'thorough_note': 'the grid units enumerate the whole grid completely; random units add seeded off-grid cells'}
@@ -50,7 +50,7 @@ def payload_within(table, consumed):
     return tot
 
 
-def make_body(kind, size):
+def make_body(kind, size, wide=False):
     """-> (body bytes, info).  For multipart kinds `size` is the size of the part's data."""
     if kind == 'raw':
         return bytes((i * 31 + 7) % 256 for i in range(size)), {}
@@ -64,6 +64,10 @@ def make_body(kind, size):
         # the same amount of text spread over four fields, each below the threshold on its own
         k = 4
         pieces = [data[i * size // k:(i + 1) * size // k] for i in range(k)]
+        if wide:
+            # the same number of bytes as text outside ASCII (3 and 4 bytes per character): the budget is one of bytes
+            pieces = [(('€' if i % 2 else '\U0001f600') * (len(pc) // (3 if i % 2 else 4))).encode() + b'z' * (len(pc) % (3 if i % 2 else 4)) for i, pc in enumerate(pieces)]
+            data = b''.join(pieces)
         out = bytearray()
         hdr = 0
         for i, pc in enumerate(pieces):
@@ -162,7 +166,19 @@ def cell(ctx, app, seen, S_target, L, B, framing, kind, grid=False):
     if via_copy:
         kind = 'raw'
         ctx.count('body_read_through_a_request_copy')
-    body, info = make_body('raw' if broken_mp else kind, S_target)
+    closed_mp = kind in ('raw_closed_mp', 'mp_file_epilogue')     # a complete little form followed by a long epilogue (legal: RFC 2046), read raw or as a form
+    wide = kind == 'mp_texts_wide'
+    if wide:
+        kind = 'mp_texts'
+        ctx.count('multipart_text_outside_ascii')
+    body, info = make_body('raw' if broken_mp or closed_mp else kind, S_target, wide=wide) if not wide else make_body('mp_texts', S_target, wide=True)
+    if closed_mp:
+        form, finfo = make_body('mp_file', 5)
+        epilogue = body
+        body = (form + epilogue)[:max(S_target, len(form))]
+        info = dict(finfo)
+        ctx.count('multipart_followed_by_a_long_epilogue')
+        kind = 'raw' if kind == 'raw_closed_mp' else 'mp_file'
     if broken_mp:
         kind = 'raw'
         pre = (b'This is a multi-part message in MIME format.\r\n', b'x', b'\r\n\r\n--' + BOUNDARY.encode() + b'zz\r\n', b'--' + BOUNDARY.encode()[:-1])[S_target % 4]
@@ -170,7 +186,7 @@ def cell(ctx, app, seen, S_target, L, B, framing, kind, grid=False):
         ctx.count('raw_body_announced_as_multipart_but_refused_by_the_scanner')
     S = len(body)
     ctype = {'raw': 'application/octet-stream', 'urlencoded': 'application/x-www-form-urlencoded'}.get(kind, f'multipart/form-data; boundary={BOUNDARY}')
-    if broken_mp:
+    if broken_mp or closed_mp:
         ctype = f'multipart/form-data; boundary={BOUNDARY}'
     if framing == 'cl':
         st = RecStream(body + b'TAIL-NEVER-READ')
@@ -196,7 +212,7 @@ def cell(ctx, app, seen, S_target, L, B, framing, kind, grid=False):
     r = call_app(app, env)
     consumed = st.consumed if table is None else payload_within(table, st.consumed)
     where = f'size={S} L={L} B={B} framing={"CL" if framing == "cl" else "chunks of %d" % framing} kind={kind}'
-    wit = {'unit': {'kind': 'cell', 'S': S_target, 'L': L, 'B': B, 'framing': framing, 'ckind': 'raw_copy' if via_copy else 'raw_broken_mp' if broken_mp else kind, 'how': HOW_OF.get(id(app), 'ctor')}}
+    wit = {'unit': {'kind': 'cell', 'S': S_target, 'L': L, 'B': B, 'framing': framing, 'ckind': 'raw_copy' if via_copy else 'raw_broken_mp' if broken_mp else ('raw_closed_mp' if kind == 'raw' else 'mp_file_epilogue') if closed_mp else 'mp_texts_wide' if wide else kind, 'how': HOW_OF.get(id(app), 'ctor')}}
     ctx.count('limits_given_to_' + HOW_OF.get(id(app), 'ctor'))
     check_kept(ctx, where)
     if kind == 'raw' and r.code == 200 and seen.get('type') != 'BytesIO' and seen.get('bodyobj') is not None and len(KEPT) < 1:
@@ -368,7 +384,7 @@ def random_unit(ctx, unit):
             framing = rng.choice(['cl', 'cl', rng.randint(1, 2 * B + 5), B, B + 1])
             if framing != 'cl' and (framing == 1 and S > 3000):
                 framing = 7
-            kind = rng.choice(['raw', 'raw', 'urlencoded', 'mp_text', 'mp_file', 'mp_texts', 'raw_copy', 'raw_broken_mp'])
+            kind = rng.choice(['raw', 'raw', 'urlencoded', 'mp_text', 'mp_file', 'mp_texts', 'raw_copy', 'raw_broken_mp', 'raw_closed_mp', 'mp_file_epilogue', 'mp_texts_wide'])
             cell(ctx, app, seen, S, L, B, framing, kind)
         if i % 300 == 0:
             ctx.sample({'random_cell': {'max_body_size': L, 'max_memfile_size': B, 'last_size': S, 'framing': str(framing), 'kind': kind}})
@@ -386,7 +402,7 @@ def grid_unit(ctx, unit):
         for framing in framings:
             if framing == 1 and S > 20000:
                 continue
-            for kind in ('raw', 'urlencoded', 'mp_text', 'mp_file', 'mp_texts', 'raw_copy', 'raw_broken_mp'):
+            for kind in ('raw', 'urlencoded', 'mp_text', 'mp_file', 'mp_texts', 'raw_copy', 'raw_broken_mp', 'raw_closed_mp', 'mp_file_epilogue', 'mp_texts_wide'):
                 cell(ctx, app, seen, S, L, B, framing, kind, grid=True)
     ctx.sample({'max_body_size': L, 'max_memfile_size': B, 'sizes': sizes_for(L, B), 'framings': [str(f) for f in framings],
                 'content_kinds': ['raw', 'urlencoded', 'mp_text', 'mp_file', 'mp_texts']})
